@@ -4,7 +4,7 @@ import p_text as T
 import p_od as O
 
 OWN = {"missed", "phantom", "slice-value", "slice-unparsable", "slice-range", "offset-range", "target-not-cleared",
-       "value", "placement", "code-range"}
+       "value", "placement", "code-range", "crash"}
 
 
 def run(tier):
@@ -30,6 +30,20 @@ def run(tier):
                 f"(GetOnDemand heap/page-end/page-start, ParseOnDemand, AtPointer); failures so far {len(ctx.fail)}")
         for r in rows[:1] + rows[len(rows) // 2:len(rows) // 2 + 1]:
             ctx.samples.append(O.describe(r))
+    # strings whose escapes / quotes / brackets fall at every block offset, where the skipper meets them
+    AS = list(range(0, 70)) if q else list(range(0, 135))
+    BS = [0, 1, 30, 31, 32, 33] if q else [0, 1, 2, 14, 15, 16, 30, 31, 32, 33, 62, 63, 64, 65]
+    cfg = f"CONSTANTS AS = {T.fmtset(AS)} BS = {T.fmtset(BS)}\nINIT InitOD\nNEXT NextOD\nINVARIANT EmitOD\nINVARIANT AllValid\nCHECK_DEADLOCK FALSE\n"
+    recs = ctx.tlc_emit("Gen_OnDemandStr", cfg=cfg, timeout=1500, xmx="8g")
+    ctx.log(f"Gen_OnDemandStr: {len(recs)} (text, path) cases with specials at block offsets, {sum(1 for r in recs if r['found'])} resolving")
+    rows = O.rows_c10(recs)
+    spads = [0, 1, 2, 3, 5, 8, 13, 21, 27, 31] if q else list(range(0, 64))
+    fails, _ = O.replay_od(ctx, "c10", rows, builds, spads, name="odstr")
+    O.record(ctx, rows, fails, OWN, "ondemand-strings")
+    total += len(rows)
+    ctx.traces += len(rows) * len(builds)
+    ctx.log(f"replayed {len(rows)} string-offset cases x {len(spads)} alignments x {len(builds)} builds; failures so far {len(ctx.fail)}")
+    ctx.samples.append(O.describe(rows[len(rows) // 3]))
     ctx.extra.update(replayed_cases=total, builds=builds, alignments=pads)
     ctx.assumptions += ["R-model: JsonValue!Lookup on JsonText!Denote (first match for duplicate keys)",
                         "texts are valid JSON; behaviour on malformed input is C11's subject"]
